@@ -98,12 +98,13 @@ def build_pyramid(depth, acc, apex, generic=False):
     return p
 
 
-def walk_main(depth, acc, apex, nw, log, faults=(), generic=False):
+def walk_main(depth, acc, apex, nw, log, faults=(), generic=False, flavour="plain"):
     def cb(pos):
         key = tuple(pos)
         simmp.cb_sync("cb_start", key, log)
         if key in faults:
-            raise ValueError("injected fault at %r" % (key,))
+            from checks.c03 import raise_fault
+            raise_fault(flavour, key)
         simmp.cb_sync("cb_end", key, log)
     return lambda: build_pyramid(depth, acc, apex, generic).walk(cb, parallel=nw)
 
